@@ -502,29 +502,28 @@ impl<'a> Parser<'a> {
     }
 
     fn parse_op(&mut self, exec_prec: i32, mut lhs: ExprAST<'a>) -> Result<ExprAST<'a>> {
-        let mut is_not = false;
         loop {
-            if !self.tokenizer.cur_token.is_op_token() {
-                return Ok(lhs);
-            }
-            if self.tokenizer.cur_token.is_not_token() {
-                is_not = true;
-                self.next()?;
-                if !self.cur_tok().is_binop_token() {
-                    return Err(Error::ExpectBinOpToken);
-                }
-                continue;
-            }
             if self.tokenizer.cur_token.is_question_mark() {
+                // The conditional binds looser than every infix operator, so it is
+                // only built at the outermost level of an expression.
+                if exec_prec > 0 {
+                    return Ok(lhs);
+                }
                 self.next()?;
                 let a = self.parse_expression()?;
                 self.expect(":")?;
                 let b = self.parse_expression()?;
                 return Ok(ExprAST::Ternary(Box::new(lhs), Box::new(a), Box::new(b)));
             }
-            let (l_bp, r_bp) = self.get_token_precidence();
+            let (is_not, l_bp, r_bp) = match self.get_infix_precidence()? {
+                Some(precidence) => precidence,
+                None => return Ok(lhs),
+            };
             if l_bp < exec_prec {
                 return Ok(lhs);
+            }
+            if is_not {
+                self.next()?;
             }
             let op: &str = match self.tokenizer.cur_token {
                 Token::Operator(op, _) => op,
@@ -533,16 +532,36 @@ impl<'a> Parser<'a> {
             self.next()?;
             let mut rhs = self.parse_primary()?;
 
-            let (cur_l_bp, _) = self.get_token_precidence();
-            if self.tokenizer.cur_token.is_binop_token() && r_bp < cur_l_bp {
-                rhs = self.parse_op(r_bp, rhs)?;
+            if let Some((_, next_l_bp, _)) = self.get_infix_precidence()? {
+                if r_bp < next_l_bp {
+                    rhs = self.parse_op(r_bp, rhs)?;
+                }
             }
             lhs = ExprAST::Binary(op, Box::new(lhs), Box::new(rhs));
             if is_not {
                 lhs = ExprAST::Unary("not", Box::new(lhs));
-                is_not = false;
             }
         }
+    }
+
+    // Binding powers of the infix operator at the cursor. `x not OP y` is the
+    // negation of `x OP y`: the operator that decides the grouping is OP, so a
+    // leading `not` is looked through (without being consumed).
+    fn get_infix_precidence(&self) -> Result<Option<(bool, i32, i32)>> {
+        if self.tokenizer.cur_token.is_not_token() {
+            return match self.tokenizer.peek()? {
+                Token::Operator(op, _) if crate::keyword::is_infix_op(op) => {
+                    let (l_bp, r_bp) = InfixOpManager::new().get_precidence(op);
+                    Ok(Some((true, l_bp, r_bp)))
+                }
+                _ => Err(Error::ExpectBinOpToken),
+            };
+        }
+        if self.tokenizer.cur_token.is_binop_token() {
+            let (l_bp, r_bp) = self.get_token_precidence();
+            return Ok(Some((false, l_bp, r_bp)));
+        }
+        Ok(None)
     }
 
     fn get_token_precidence(&self) -> (i32, i32) {
